@@ -4,6 +4,7 @@ import (
 	"reflect"
 	"runtime"
 	"sort"
+	"sync"
 	"unsafe"
 )
 
@@ -29,6 +30,8 @@ type chanInfo struct {
 }
 
 type selCase struct {
+	rch   reflect.Value // outside a controlled run: the channel and the value to send, for reflect.Select
+	rval  reflect.Value
 	p     uintptr
 	send  bool
 	isNil bool
@@ -375,7 +378,7 @@ func NoteCancel(done <-chan struct{}) {
 func CaseRecv[T any](ch <-chan T) SelCase {
 	s, mode := cur()
 	if mode != modeSched {
-		return SelCase{}
+		return SelCase{selCase{rch: reflect.ValueOf(ch), p: rchanPtr(ch), isNil: ch == nil}}
 	}
 	return SelCase{recvCase(s, ch)}
 }
@@ -383,7 +386,7 @@ func CaseRecv[T any](ch <-chan T) SelCase {
 func CaseSend[T any](ch chan<- T, v T) SelCase {
 	s, mode := cur()
 	if mode != modeSched {
-		return SelCase{}
+		return SelCase{selCase{rch: reflect.ValueOf(ch), rval: reflect.ValueOf(&v).Elem(), p: schanPtr(ch), send: true, isNil: ch == nil}}
 	}
 	return SelCase{sendCase(s, ch, v, false)}
 }
@@ -398,7 +401,7 @@ func Select(hasDefault bool, site string, cases ...SelCase) int {
 		runtime.Goexit()
 	}
 	if mode == modeReal {
-		panic("vx.Select outside a controlled run is not supported")
+		return realSelect(hasDefault, cases)
 	}
 	op := &Op{Kind: "select", Site: site, nonblocking: hasDefault}
 	op.cases = make([]selCase, len(cases))
@@ -475,6 +478,63 @@ func Select(hasDefault bool, site string, cases ...SelCase) int {
 	return ci
 }
 
+// Outside a controlled run (a harness calling library code directly, package initialisation) a select is an
+// ordinary select: reflect.Select performs the chosen communication, and the SelRecv / SelSend of the rewritten
+// clause pick up what it did.
+type realDone struct {
+	val interface{}
+	ok  bool
+}
+
+var (
+	realMu    sync.Mutex
+	realStash = map[uintptr][]realDone{}
+)
+
+func realSelect(hasDefault bool, cases []SelCase) int {
+	rc := make([]reflect.SelectCase, 0, len(cases)+1)
+	for _, c := range cases {
+		switch {
+		case c.c.isNil:
+			rc = append(rc, reflect.SelectCase{Dir: reflect.SelectRecv}) // a nil channel: never ready
+		case c.c.send:
+			rc = append(rc, reflect.SelectCase{Dir: reflect.SelectSend, Chan: c.c.rch, Send: c.c.rval})
+		default:
+			rc = append(rc, reflect.SelectCase{Dir: reflect.SelectRecv, Chan: c.c.rch})
+		}
+	}
+	if hasDefault {
+		rc = append(rc, reflect.SelectCase{Dir: reflect.SelectDefault})
+	}
+	i, v, ok := reflect.Select(rc)
+	if i < len(cases) {
+		d := realDone{ok: ok}
+		if !cases[i].c.send && ok {
+			d.val = v.Interface()
+		}
+		realMu.Lock()
+		realStash[cases[i].c.p] = append(realStash[cases[i].c.p], d)
+		realMu.Unlock()
+	}
+	return i
+}
+
+func realTake(p uintptr) (realDone, bool) {
+	realMu.Lock()
+	defer realMu.Unlock()
+	q := realStash[p]
+	if len(q) == 0 {
+		return realDone{}, false
+	}
+	d := q[0]
+	if len(q) == 1 {
+		delete(realStash, p)
+	} else {
+		realStash[p] = q[1:]
+	}
+	return d, true
+}
+
 // SelRecv performs the receive of the chosen select clause.
 func SelRecv[T any](ch <-chan T) T {
 	v, _ := SelRecv2(ch)
@@ -496,6 +556,12 @@ func SelRecv2[T any](ch <-chan T) (T, bool) {
 			}
 			return op.handVal.(T), true
 		}
+	} else if d, done := realTake(rchanPtr(ch)); done {
+		var z T
+		if d.val != nil {
+			z = d.val.(T)
+		}
+		return z, d.ok
 	}
 	v, ok := <-ch
 	return v, ok
@@ -510,6 +576,8 @@ func SelSend[T any](ch chan<- T, v T) {
 			t.selHand = nil
 			return // value was handed over directly
 		}
+	} else if _, done := realTake(schanPtr(ch)); done {
+		return // reflect.Select has sent it
 	}
 	ch <- v
 }
